@@ -559,6 +559,7 @@ def r05d(P, R):
     _guarded(R, "R05-d", "anchor:recursion-follows", _r05d_follow, P, R)
     _guarded(R, "R05-d", "anchor:recursion-edges", _r05d_edges, P, R)
     _guarded(R, "R05-d", "anchor:every-element", _r05d_every, P, R)
+    _guarded(R, "R05-d", "anchor:per-item-state", _r05d_state, P, R)
 
 
 def _nested_variants(matches, adt_path):
@@ -719,6 +720,24 @@ def _r05d_every(P, R):
                 boolean = False
             what = sorted({y["field"] for y in subnodes(cond or {}) if y.get("k") == "Field"}
                           | {short(call_name(y)) for y in subnodes(cond or {}) if y.get("k") in ("Call", "MethodCall") and (call_name(y) or "").startswith(CK)})
+            if boolean and g[0] == "if-then":
+                # the accepting case of a single rule written as an early exit: everything the exit skips is one unconditional
+                # report (`if ok { continue } push(diagnostic)` is `if !ok { push(diagnostic) }`)
+                rest = None
+                for b_ in f.walk():
+                    if b_.get("k") == "Block":
+                        sts = b_.get("stmts", [])
+                        for j_, st in enumerate(sts):
+                            if st is g[1] or (st.get("k") == "Stmt" and st.get("e") is g[1]):
+                                rest = sts[j_ + 1:] + ([b_["tail"]] if b_.get("tail") is not None else [])
+                if rest:
+                    rn = [y for st in rest for y in subnodes(st)]
+                    flow = [y for y in rn if y.get("k") in ("If", "Loop", "Continue", "Break", "Ret")
+                            or (y.get("k") == "Match" and not str(y.get("src", "")).startswith("TryDesugar"))]
+                    calls_rep = [y for y in rn if y.get("k") in ("Call", "MethodCall") and call_name(y) and reports(call_name(y))]
+                    if not flow and not calls_rep and diag_sites(rn):
+                        R.holds("R05-d", key, "the early exit is the accepting case of the one report that follows it", loc=f.loc())
+                        continue
             if boolean:
                 R.violated("R05-d", key, "%s leaves an iteration of its loop over %s early (`%s`) under a condition on %s and reports nothing: "
                            "every rule applied further down the loop body is skipped for those elements" % (f.path, loop_elem or "its elements", k.lower(), what or "the element"),
@@ -740,6 +759,70 @@ def _r05d_every(P, R):
         bad = [y["method"] for y in subnodes(m["scrut"]) if y.get("k") == "MethodCall" and y["method"] in (LOSSY_OR_REORDERING | {"filter", "filter_map"})]
         R.check("R05-d", "every-definition", not bad, "the dispatch loop iterates over all definitions",
                 "%s iterates over the definitions through %s: definitions it drops are never checked" % (e.path, bad), loc=e.loc())
+
+
+def _r05d_state(P, R):
+    """PER-ITEM STATE.  A set handed down by `&mut` that lets a checker leave silently ("already visited") decides *whether* an
+    element is examined.  Such a set must be created per element it is about: if the local it originates from is created outside a
+    loop and handed down from inside that loop, what is examined for one element depends on the elements that came before it."""
+    fns = [P.fns[p] for p in scope(P) if P.fns[p].crate == CHK and P.fns[p].kind in ("Fn", "AssocFn")]
+    setty = re.compile(r"^&mut .*\b(HashSet|BTreeSet|IndexSet|HashMap|BTreeMap|IndexMap|Vec)<")
+
+    def strip(e):
+        while e is not None and e.get("k") in ("AddrOf", "Unary", "DropTemps", "Use", "Paren") and "e" in e:
+            e = e["e"]
+        return e or {}
+    gates = []
+    for g in fns:
+        for pi, (p_, t) in enumerate(zip(g.params, g.sig_inputs)):
+            if p_.get("k") != "Binding" or not setty.match(t) or "CheckError" in t:
+                continue
+            lid = p_["local"]
+            for x in g.walk():
+                if x.get("k") != "If":
+                    continue
+                tests = [y for y in subnodes(x["cond"]) if y.get("k") == "MethodCall" and y["method"] in ("insert", "contains", "contains_key")
+                         and strip(y["recv"]).get("local") == lid]
+                if not tests:
+                    continue
+                for br in (x.get("then"), x.get("else")):
+                    ns = subnodes(br) if br is not None else []
+                    if any(y.get("k") in ("Ret", "Continue", "Break") and not str(y.get("x", "")).startswith("desugar") for y in ns) and not diag_sites(ns):
+                        gates.append((g, pi))
+    seen, n = set(), 0
+    todo = list(dict.fromkeys(gates))
+    while todo:
+        g, pi = todo.pop()
+        if (g.path, pi) in seen:
+            continue
+        seen.add((g.path, pi))
+        for c in fns:
+            acc = c.nodes()
+            for i, (y, _p) in enumerate(acc):
+                if y.get("k") not in ("Call", "MethodCall") or call_name(y) != g.path:
+                    continue
+                args = ([y["recv"]] if y.get("k") == "MethodCall" else []) + y["args"]
+                if pi >= len(args):
+                    continue
+                a = strip(args[pi])
+                if a.get("k") != "Path" or "local" not in a:
+                    continue
+                own = [j for j, q in enumerate(c.params) if q.get("k") == "Binding" and q.get("local") == a["local"]]
+                if own:
+                    todo.append((c, own[0]))
+                    continue
+                lets = [j for j, (z, _q) in enumerate(acc) if z.get("k") == "Let" and z["pat"].get("k") == "Binding" and z["pat"].get("local") == a["local"]]
+                if not lets:
+                    continue
+                n += 1
+                depth_let = sum(1 for k_ in enclosing_contexts(c, lets[0]) if k_[0] in ("loop", "closure"))
+                depth_use = sum(1 for k_ in enclosing_contexts(c, i) if k_[0] in ("loop", "closure"))
+                key = "per-item-state:%s:%s" % (short(c.path), a.get("name"))
+                R.check("R05-d", key, depth_use <= depth_let, "the visited-set is created where it is used (per element)",
+                        "%s creates `%s` once, outside the loop in which it hands it to %s, where membership in it makes a checker return "
+                        "silently: what is examined for an element depends on the elements checked before it (a type already walked for "
+                        "one definition is skipped for the next)" % (c.path, a.get("name"), short(g.path)), loc=c.loc())
+    R.count("visited_sets_traced", n)
 
 
 # diagnostics tied to a position: how many construction sites each position's region had on the reference tree
@@ -1013,7 +1096,7 @@ def _r05f_impl(P, R):
                 conds.append(c[1]["cond"])
             for cond in conds:
                 for fld in subnodes(cond):
-                    if fld.get("k") == "Field" and fld["field"] == "arguments" and has_field(pv.data_atoms(fld["e"]), IFACE, "fields"):
+                    if fld.get("k") == "Field" and fld["field"] == "arguments" and (IFACE, "fields") in _made_of(cvi, pv, fld["e"])[1]:
                         bad.append(fld["s"][0])
         R.check("R05-f", "additional-arguments-unconditional", not bad,
                 "the required-additional-argument rule applies whenever the implementing field has arguments",
